@@ -1067,3 +1067,31 @@ impl Wordy for UnitKey {
 pub const OWNER_KEY: UnitKey = UnitKey("Interfaces_Owner");
 pub const OPERATOR_KEY: UnitKey = UnitKey("Interfaces_Operator");
 pub const MIGRATING_KEY: UnitKey = UnitKey("Interfaces_Migrating");
+
+pub static mut ABSTRACT_CONTENT_TAKEN: Option<u64> = None;
+pub fn has_content(id: u64) -> bool {
+    if id == crate::EMPTY_ID {
+        return true;
+    }
+    let t = unsafe { &mut CONTENT };
+    for (k, _) in t.iter() {
+        if *k == id {
+            return true;
+        }
+    }
+    false
+}
+/// a contract stub consumes the identity of the abstract byte string whose content was requested
+pub fn take_abstract_content() -> u64 {
+    unsafe {
+        match ABSTRACT_CONTENT_TAKEN.take() {
+            Some(id) => id,
+            None => harness_bug("no abstract byte content was requested"),
+        }
+    }
+}
+pub fn no_dangling_abstract_content() {
+    if unsafe { ABSTRACT_CONTENT_TAKEN.is_some() } {
+        harness_bug("real code inspected the content of an abstract byte string");
+    }
+}
